@@ -159,6 +159,11 @@ def random_text_case(rng):
     if x and rng.random() < 0.35:
         x = x[:-1]
     case = {"binary": False, "blocks": blocks}
+    if rng.random() < 0.015:
+        # in-memory content that names an existing directory or device
+        case["x"] = codec.enc_str(fsup.path_like(rng))
+        case["query_in_write"] = False
+        return case
     if rng.random() < 0.2 and x:
         # lone carriage returns and CR LF pairs: in memory only "\n" ends a line, nothing is translated
         # (the disk route translates them on reading: outside C16's domain)
